@@ -291,7 +291,8 @@ theorem directions_independent (cd : Codec) (s s' : Stream) (b : Bytes) (es : Bo
 
 /-! ## 7. Facts regenerated from the source on every check (finite tables: `decide`) -/
 
-/-- adapter.Header tests `content-type` = `application/grpc` (exactly) and reads `grpc-encoding` -/
+/-- adapter.Header tests `content-type` = `application/grpc` (for equality: `==` or a `case`
+of a `switch h.Name`) and reads `grpc-encoding` -/
 theorem facts_grpc_header_tests : Generated.Grpc.headerTests =
     [("h.Name", "content-type"), ("h.Value", "application/grpc"), ("h.Name", "grpc-encoding")] := by decide
 
@@ -300,6 +301,15 @@ theorem facts_grpc_encoding_names : Generated.Grpc.encodingNames =
 
 /-- the message prefix is 5 bytes (flag + big-endian uint32), as in the model -/
 theorem facts_grpc_prefix_len : Generated.Grpc.prefixLen = 5 := by decide
+
+/-- The 32-bit arithmetic the model transcribes (`Grpc.u32`, `be32`, `putBe32`): `adapter.length`
+is a `uint32`; the one ordering comparison with it converts the buffer length to `uint32` first;
+the prefix is read and written big-endian, the written value being `uint32(len(data))`. -/
+theorem facts_grpc_length_arith :
+    Generated.Grpc.lengthFieldType = "uint32"
+    ∧ Generated.Grpc.lengthCompares = ["uint32(a.buffer.Len()) < a.length"]
+    ∧ Generated.Grpc.prefixRead = ["binary.BigEndian", "&a.length"]
+    ∧ Generated.Grpc.prefixWrite = ["binary.BigEndian", "uint32(len(data))"] := by decide
 
 /-- For every encoding the emitter writes the format the adapter reads (the structural side of
 `Codec.RoundTrip`; F11c was snappy-framed in, snappy-block out). -/
